@@ -969,6 +969,9 @@ func (r *runner) deferOrGo(b *cfg.Block, c *ast.CallExpr, st *State, prefix stri
 	}
 	if lit, ok := ast.Unparen(c.Fun).(*ast.FuncLit); ok {
 		sub := r.sp.runLit(r.pkg, lit, r.depth)
+		if prefix == "go:" {
+			r.useFreeVars(lit, st)
+		}
 		for t := range sub.Sum.MustAll {
 			r.addTag(st, prefix+t)
 		}
@@ -1075,9 +1078,30 @@ func (r *runner) evalExpr(b *cfg.Block, e ast.Expr, st *State) {
 
 func (r *runner) useFreeVars(lit *ast.FuncLit, st *State) {
 	ast.Inspect(lit.Body, func(n ast.Node) bool {
-		if id, ok := n.(*ast.Ident); ok {
-			if o := r.info.Uses[id]; o != nil {
+		switch x := n.(type) {
+		case *ast.Ident:
+			if o := r.info.Uses[x]; o != nil {
 				r.use(o, st)
+			}
+		case *ast.AssignStmt:
+			// a captured variable assigned inside the literal: nothing is known about it once the
+			// literal may have run
+			for _, l := range x.Lhs {
+				if id, ok := ast.Unparen(l).(*ast.Ident); ok {
+					if o := r.info.Uses[id]; o != nil && (o.Pos() < lit.Pos() || o.Pos() > lit.End()) {
+						delete(st.Nil, o)
+						delete(st.Bool, o)
+						delete(st.Eq, o)
+						delete(st.Def, o)
+						delete(st.DefIdx, o)
+					}
+				}
+			}
+		case *ast.IncDecStmt:
+			if id, ok := ast.Unparen(x.X).(*ast.Ident); ok {
+				if o := r.info.Uses[id]; o != nil {
+					delete(st.Eq, o)
+				}
 			}
 		}
 		return true
